@@ -175,4 +175,22 @@ example : (workSplit [(0, [⟨0, [1]⟩, ⟨1, [2]⟩, ⟨2, [3]⟩]), (1, [⟨3
     = some [[(0, 0, 1), (0, 1, 2), (0, 2, 3)], [(1, 0, 1)]] := by
   decide +kernel
 
+/-- "merging per-dataset files keeps, per cluster, the row of the dataset with
+the most cells": for a non-empty list of per-dataset arrays with the same
+`nC` rows, `merge_precompute_files` succeeds, and each output row `r` is,
+whole, row `r` of one of the input files, and no input file has more cells in
+row `r` than that one. -/
+theorem merge_max (nC : Nat) (files : List Buffer) (hne : files ≠ [])
+    (hlen : ∀ f ∈ files, f.length = nC) :
+    ∃ out, mergeMax files = .ok out ∧ out.length = nC ∧
+      ∀ r, r < nC → ∃ (k : Nat) (fk : Buffer) (row : Row), files[k]? = some fk ∧
+        fk[r]? = some row ∧ out[r]? = some row ∧
+        ∀ f' ∈ files, ∀ row', f'[r]? = some row' → row'.n ≤ row.n :=
+  mergeMax_spec nC files hne hlen
+
+example : mergeMax [[⟨1, []⟩, ⟨5, []⟩, ⟨2, []⟩], [⟨3, []⟩, ⟨4, []⟩, ⟨2, [GStat.zero]⟩],
+      [⟨0, []⟩, ⟨9, []⟩, ⟨0, []⟩]]
+    = .ok [⟨3, []⟩, ⟨9, []⟩, ⟨2, [GStat.zero]⟩] := by
+  decide +kernel
+
 end CTM.C09
